@@ -56,21 +56,21 @@ type C16Single struct {
 }
 
 type C16Scalars struct {
-	Str  string  `hcl:"str"`
-	Opt  string  `hcl:"opt,optional"`
-	PStr *string `hcl:"pstr,optional"`
-	B    bool    `hcl:"b"`
-	I    int     `hcl:"i"`
-	I8   int8    `hcl:"i8"`
-	I16  int16   `hcl:"i16"`
-	I32  int32   `hcl:"i32"`
-	I64  int64   `hcl:"i64"`
-	U    uint    `hcl:"u"`
-	U8   uint8   `hcl:"u8"`
-	U32  uint32  `hcl:"u32"`
-	U64  uint64  `hcl:"u64"`
-	F    float64 `hcl:"f"`
-	PI   *int    `hcl:"pi,optional"`
+	Str  string   `hcl:"str"`
+	Opt  string   `hcl:"opt,optional"`
+	PStr *string  `hcl:"pstr,optional"`
+	B    bool     `hcl:"b"`
+	I    int      `hcl:"i"`
+	I8   int8     `hcl:"i8"`
+	I16  int16    `hcl:"i16"`
+	I32  int32    `hcl:"i32"`
+	I64  int64    `hcl:"i64"`
+	U    uint     `hcl:"u"`
+	U8   uint8    `hcl:"u8"`
+	U32  uint32   `hcl:"u32"`
+	U64  uint64   `hcl:"u64"`
+	F    float64  `hcl:"f"`
+	PI   *int     `hcl:"pi,optional"`
 	PF   *float64 `hcl:"pf,optional"`
 }
 
@@ -86,12 +86,12 @@ type C16Colls struct {
 }
 
 type C16Blocks struct {
-	Title   string       `hcl:"title"`
-	Single  C16Single    `hcl:"single,block"`
-	PSingle *C16Single   `hcl:"psingle,block"`
-	Many    []C16Leaf    `hcl:"many,block"`
-	PMany   []*C16Leaf   `hcl:"pmany,block"`
-	Twos    []C16Two     `hcl:"two,block"`
+	Title   string     `hcl:"title"`
+	Single  C16Single  `hcl:"single,block"`
+	PSingle *C16Single `hcl:"psingle,block"`
+	Many    []C16Leaf  `hcl:"many,block"`
+	PMany   []*C16Leaf `hcl:"pmany,block"`
+	Twos    []C16Two   `hcl:"two,block"`
 }
 
 type C16Mixed struct {
@@ -103,9 +103,9 @@ type C16Mixed struct {
 }
 
 type C16Labeled struct {
-	Type  string    `hcl:"type,label"`
-	Count int       `hcl:"count,optional"`
-	Sub   []C16Two  `hcl:"sub,block"`
+	Type  string   `hcl:"type,label"`
+	Count int      `hcl:"count,optional"`
+	Sub   []C16Two `hcl:"sub,block"`
 }
 
 var c16Types = []reflect.Type{
